@@ -333,6 +333,9 @@ func variantRegionSets() [][]regionSpec {
 		{{Name: "geneA", Positions: seqPos(1, 9), Strand: 1}},
 		{{Name: "geneA", Positions: seqPos(1, 9), Strand: 1}, {Name: "geneR", Positions: seqPos(12, 7), Strand: -1}},
 		{{Name: "geneJ", Positions: append(seqPos(1, 3), seqPos(7, 12)...), Strand: 1}},
+		// overlapping products (a polyprotein, a frame-shifted ORF, a shorter product in the polyprotein's frame): one
+		// position can be a bare nuc record for two of them and, between them in scanning order, an aa record for the third
+		{{Name: "f0", Positions: seqPos(1, 12), Strand: 1}, {Name: "f1", Positions: seqPos(3, 11), Strand: 1}, {Name: "f0b", Positions: seqPos(1, 9), Strand: 1}},
 	}
 }
 
@@ -357,6 +360,26 @@ func variantPairs(tier string) []pairCase {
 		q[pr[0]] = 'T'
 		q[pr[1]] = 'G'
 		out = append(out, pairCase{ref, string(q), "two changes"})
+	}
+	// a real change plus, elsewhere in the same codon, an ambiguity code that is compatible with the reference:
+	// the codon's translation is then ambiguous unless every expansion agrees
+	for cs := 0; cs+2 < len(ref); cs += 3 {
+		for _, lay := range [][2]int{{0, 2}, {0, 1}, {1, 2}, {2, 0}} {
+			for _, amb := range []byte("NRYKMSW") {
+				for _, alt := range []byte("ACGT") {
+					if alt == ref[cs+lay[0]] {
+						continue
+					}
+					if bs, _ := oracle.BaseSet(amb, false); bs&mustBaseSet(ref[cs+lay[1]]) == 0 {
+						continue // not compatible with the reference base there
+					}
+					q := []byte(ref)
+					q[cs+lay[0]] = alt
+					q[cs+lay[1]] = amb
+					out = append(out, pairCase{ref, string(q), fmt.Sprintf("codon at %d: %c at offset %d and compatible %c at offset %d", cs+1, alt, lay[0], amb, lay[1])})
+				}
+			}
+		}
 	}
 	// deletions
 	for s := 0; s < len(ref); s++ {
@@ -506,6 +529,14 @@ func runVariantsFamily(c *core.Ctx, tabs *Tables) variantsVerdict {
 			}
 			sort.Strings(missing)
 			sort.Strings(invented)
+			// no record twice: the aggregate counts one occurrence per list element
+			seenRec := map[string]bool{}
+			for _, r := range got.all {
+				if seenRec[r] {
+					invented = append(invented, r+" (listed twice)")
+				}
+				seenRec[r] = true
+			}
 			if len(missing)+len(invented) > 0 {
 				v.badSNP = append(v.badSNP, fmt.Sprintf("%s: dropped %v invented %v (reported %v)", where, missing, invented, got.all))
 			}
@@ -524,3 +555,38 @@ func runVariantsFamily(c *core.Ctx, tabs *Tables) variantsVerdict {
 }
 
 func posOrNo(c *core.Ctx, pkg, name string) token.Pos { return funcPos(c, pkg, name) }
+
+func mustBaseSet(b byte) int {
+	s, _ := oracle.BaseSet(b, false)
+	return s
+}
+
+// checkNoDuplicateRecords (C13): the aggregate writers count list elements, so a per-sequence list must not carry
+// a record twice - also where overlapping products report the same nucleotide change from several sides.
+func checkNoDuplicateRecords(c *core.Ctx, tabs *Tables, rule string) {
+	sets := variantRegionSets()
+	var bad []string
+	n := 0
+	for si, regions := range sets {
+		for _, pc := range variantPairs("quick") {
+			if !strings.HasPrefix(pc.note, "site ") && !strings.HasPrefix(pc.note, "two changes") {
+				continue
+			}
+			n++
+			got, err := evalVariantsPair(c, tabs, pc.ref, pc.qry, regions)
+			if err != nil {
+				c.Und(rule, funcPos(c, "pkg/variants", "GetVariantsPair"), "cannot evaluate GetVariantsPair: %v", err)
+				return
+			}
+			seen := map[string]bool{}
+			for _, r := range got.all {
+				if seen[r] {
+					bad = append(bad, fmt.Sprintf("ref %s query %s (annotation %d): %s is listed twice in %v - the aggregate would count this sequence twice", pc.ref, pc.qry, si+1, r, got.all))
+				}
+				seen[r] = true
+			}
+		}
+	}
+	c.Count("pairs_checked_for_duplicates", n)
+	c.Ob(rule, len(bad) == 0, funcPos(c, "pkg/variants", "GetVariantsPair"), "%s", first(bad, 3))
+}
